@@ -41,6 +41,9 @@ func genC20(family string) func(g *Gen) *Scn {
 	return func(g *Gen) *Scn {
 		sc := &Scn{Family: family}
 		quota := g.Range(1, 3)
+		if family == "C20.native" && g.Bool(0.1) {
+			quota = 0 // nothing passes; the stream still ends when (and how) the source ends
+		}
 		w := g.PickInt(2, 3, 5)
 		nkeys := g.Range(1, 3)
 		n := g.Range(3, 12)
@@ -235,7 +238,7 @@ func runC20(e *Env) {
 	// minimiser discards, so a stored scenario always shows the values that were really used)
 	quota := sc.Int("quota", 1)
 	w := sc.Int("w", 2)
-	if quota < 1 || w < 1 {
+	if quota < 0 || w < 1 || (quota == 0 && sc.Family != "C20.native") {
 		panic(fmt.Sprintf("C20: illegal quota %d or window %d", quota, w))
 	}
 	win := dur(w)
